@@ -182,6 +182,11 @@ func (m *Model) Step(msg script.CMsg) (out []Exp, evs []ExpEv) {
 	if m.InCopy() {
 		return m.feedCopy(msg)
 	}
+	if msg.Over {
+		// an oversized message is skipped and answered with one ErrorResponse (54000) in any
+		// state; whether its own ReadyForQuery follows is an open choice; the state is unchanged
+		return []Exp{{T: 'E', Why: "oversized message"}, {T: 'Z', OptZ: true}}, nil
+	}
 	if m.Discard {
 		if msg.K == "S" {
 			m.Discard = false
